@@ -20,7 +20,7 @@ SPAN = [(15e6, 8e6), (2e6, 2e6), (170.0, 80.0), (15e6, 10e6), (3e6, 3e6)]
 
 HDR = ("From Coq Require Import ZArith List Bool PrimFloat.\n"
        "From PR Require Import Base.Num Base.F64 Base.ListX Base.Slice Model.Grid Model.SliceArea Model.Stack "
-       "Model.C10_run Gen.GenC10.\nImport ListNotations.\nOpen Scope Z_scope.\n")
+       "Model.LonlatPaths Model.C10_run Gen.GenC10.\nImport ListNotations.\nOpen Scope Z_scope.\n")
 
 
 # ------------------------------------------------------------------ Coq literals
@@ -317,6 +317,66 @@ def gen_swath(ctx):
     return cases, conc
 
 
+
+def compositions(r, n):
+    """a random tuple of positive chunk sizes summing to n"""
+    out, left = [], n
+    while left > 0:
+        k = r.randint(1, left)
+        out.append(k)
+        left -= k
+    return out
+
+
+def rand_window(r, n):
+    a = r.randint(0, n - 1)
+    return [a, r.randint(a + 1, n + 1)]
+
+
+def rand_ds(r, h, w, plain_ok=False):
+    k = r.random()
+    if k < 0.25:
+        return None
+    if plain_ok and k < 0.35:
+        return [rand_window(r, h)]
+    return [rand_window(r, h), r.choice([[0, w], [None, None], rand_window(r, w)])]
+
+
+def gen_paths(ctx):
+    """the other code paths of get_lonlats: dask chunks, cache= histories, plain-slice data_slice, nprocs"""
+    r = ctx.rng
+    ap, sp = [], []
+    for i in range(ctx.n(40, 300)):
+        h, w = r.randint(1, 8), r.randint(1, 8)
+        area = rand_area(r, w, h, crs=r.choice([0, 1, 2, 3]))
+        chunks = [r.randint(1, 5), [r.randint(1, 5), r.randint(1, 5)], [compositions(r, h), compositions(r, w)]]
+        hist = [[rand_ds(r, h, w, plain_ok=True), r.randint(0, 1)] for _ in range(r.randint(3, 6))]
+        ap.append({"area": area, "chunks": chunks, "dask_slice": [rand_window(r, h), rand_window(r, w)], "history": hist,
+                   "plain": [[rand_window(r, h)]], "nprocs": 2 if i < ctx.n(2, 6) else 0})
+    for i in range(ctx.n(30, 200)):
+        nm = r.randint(2, 3)
+        w = r.randint(1, 5)
+        heights = [r.randint(1, 3) for _ in range(nm)]
+        root = rand_area(r, w, sum(heights) * 3, crs=r.choice([0, 1, 2, 3]), nice=True)
+        members, a = [], 0
+        for hh in heights:                       # every other block of rows: gaps between the members
+            members.append(part_of(root, a, a + hh))
+            a += hh * 3 if i % 4 else hh         # i % 4 == 0: contiguous members (they merge)
+        total = sum(heights)
+        chunks = [r.randint(1, 4), [r.randint(1, 4), r.randint(1, 4)], [heights, compositions(r, w)],
+                  [compositions(r, total), compositions(r, w)]]
+        hist = []
+        for _ in range(r.randint(3, 6)):
+            if r.random() < 0.6:
+                ds = rand_ds(r, total, w)
+                hist.append(["stack", ds, r.randint(0, 1)])
+            else:
+                j = r.randrange(nm) if i % 4 else 0          # i % 4 == 0: the members merge into one def
+                hj = heights[j] if i % 4 else total
+                hist.append(["member", j, rand_ds(r, hj, w, plain_ok=True), r.randint(0, 1)])
+        sp.append({"members": members, "chunks": chunks, "history": hist})
+    return ap, sp
+
 # ------------------------------------------------------------------ oracles
 def close_vec(child, parent_sel, scale):
     if len(child) != len(parent_sel):
@@ -342,7 +402,9 @@ def run(ctx):
                 "slices (None / negative / out-of-range bounds); every split row of random areas, both member orders and the "
                 "stacked form; stacks of 2-4 members (contiguous, gaps, permuted, CRS / width mismatch, height 0, one-ulp x "
                 "mismatch) with all row windows as data_slice; legacy and future swaths sliced (same enumeration) and "
-                "concatenated. Non-trivial = the slice is a proper sub-window / the chain has >= 2 steps / the stack has >= 2 "
+                "concatenated; the other code paths of get_lonlats on small areas and stacks with gaps: dask chunks (int, pair, explicit "
+                "tuples, chunk count equal / unequal to the member count), histories of 3-6 get_lonlats(data_slice, cache) calls on one "
+                "object (stack calls interleaved with direct member calls), plain-slice data_slice, nprocs=2. Non-trivial = the slice is a proper sub-window / the chain has >= 2 steps / the stack has >= 2 "
                 "members with a row window starting after row 0 / the concatenation changes the shape; distinct = distinct inputs")
     ctx.exhaustive = True
     gcases, mal = gen_getitem(ctx)
@@ -350,15 +412,22 @@ def run(ctx):
     spl = gen_split(ctx)
     ccases = gen_concat(ctx)
     swc, swconc = gen_swath(ctx)
+    apaths, spaths = gen_paths(ctx)
     payload = {"crs": CRS,
                "getitem": [{k: v for k, v in c.items() if k != "kind"} for c in gcases + mal],
-               "stack": scases, "split": spl, "concat": ccases, "swath": swc, "swath_concat": swconc}
+               "stack": scases, "split": spl, "concat": ccases, "swath": swc, "swath_concat": swconc,
+               "area_paths": apaths, "stack_paths": spaths}
     import sys
     import time
     t0 = time.time()
     obs = ctx.impl("c10", payload, timeout=1500)
     t_impl = time.time() - t0
     texts = []
+
+    def samp(d):
+        """one evidence sample per generator class (the framework keeps at most 16)"""
+        k = next(iter(d))
+        return None if ctx._sample_kinds.get(k, 0) >= 1 else d
 
     # ================================================================ getitem
     L_chain, L_vec = [], []
@@ -370,8 +439,8 @@ def run(ctx):
         h, w = area["h"], area["w"]
         proper = any(len(sel(h, k[0])) < h or len(sel(w, k[1])) < w for k in keys[:1])
         ctx.case(("gi", repr(area), repr(keys)), nontrivial=proper or len(keys) > 1,
-                 sample={"getitem": {"shape": [h, w], "extent": area["ext"], "crs": CRS[area["crs"]], "keys": keys},
-                         "impl_last": {k: v for k, v in ((o.get("steps") or [{}])[-1]).items() if k not in ("vec", "ll")}})
+                 sample=samp({"getitem": {"shape": [h, w], "extent": area["ext"], "crs": CRS[area["crs"]], "keys": keys},
+                         "impl_last": {k: v for k, v in ((o.get("steps") or [{}])[-1]).items() if k not in ("vec", "ll")}}))
         ctx.count("getitem_" + kind)
         rep = {"oracle": "getitem", "area": area, "keys": keys}
         if "error" in o:
@@ -433,7 +502,7 @@ def run(ctx):
     L = []
     for c, o in zip(ccases, obs["concat"]):
         a, b = c["a"], c["b"]
-        ctx.case(("cc", repr(a), repr(b)), nontrivial=True, sample={"concat": {"a": a, "b": b}, "impl": o})
+        ctx.case(("cc", repr(a), repr(b)), nontrivial=True, sample=samp({"concat": {"a": a, "b": b}, "impl": o}))
         ctx.count("concat_mode%d" % c["mode"])
         rep = {"oracle": "concat", "a": a, "b": b}
         if "error" in o:
@@ -454,8 +523,8 @@ def run(ctx):
     L = []
     for c, o in zip(spl, obs["split"]):
         area, k = c["area"], c["k"]
-        ctx.case(("sp", repr(area), k), nontrivial=True, sample={"split": {"shape": [area["h"], area["w"]], "extent": area["ext"], "row": k},
-                                                                "impl_tb": o.get("tb")})
+        ctx.case(("sp", repr(area), k), nontrivial=True, sample=samp({"split": {"shape": [area["h"], area["w"]], "extent": area["ext"], "row": k},
+                                                                "impl_tb": o.get("tb")}))
         ctx.count("split")
         rep = {"oracle": "split", "area": area, "k": k}
         if "error" in o:
@@ -499,7 +568,7 @@ def run(ctx):
             continue
         mem_lit = "[" + "; ".join(fobs({"ext": m["ext"], "w": m["w"], "h": m["h"], "off": [0, 0]}, m["crs"]) for m in members) + "]"
         if o.get("not_implemented"):
-            ctx.case(("st", repr(members)), nontrivial=True, sample={"stack": {"members": members}, "impl": "NotImplementedError"})
+            ctx.case(("st", repr(members)), nontrivial=True, sample=samp({"stack": {"members": members}, "impl": "NotImplementedError"}))
             if len({m["crs"] for m in members if m["h"] > 0}) == 1:
                 ctx.add_failure("C10.stack.error", "members with one CRS are rejected: %s" % (members,), rep)
             L_st.append("(%s, None)" % mem_lit)
@@ -512,7 +581,7 @@ def run(ctx):
         if c["mode"] == 0 and len(o["defs"]) != 1:
             ctx.add_failure("C10.stack.merge", "vertically adjacent members %s are not merged: %d defs" % (members, len(o["defs"])), rep)
         if not c["lonlats"]:
-            ctx.case(("st", repr(members)), nontrivial=len(live) >= 2, sample={"stack": {"members": members}, "impl_ndefs": len(o["defs"])})
+            ctx.case(("st", repr(members)), nontrivial=len(live) >= 2, sample=samp({"stack": {"members": members}, "impl_ndefs": len(o["defs"])}))
             continue
         # provenance tags of every cell of every def
         tags, ms = {}, []
@@ -532,7 +601,7 @@ def run(ctx):
         for ds, ll in zip(c["data_slices"], o["ll"]):
             nontriv = len(o["defs"]) >= 2 and ds is not None and ds[0][0] > 0
             ctx.case(("stll", repr(members), repr(ds)), nontrivial=nontriv or ds is None,
-                     sample={"stacked_lonlats": {"member_shapes": [[m["h"], m["w"]] for m in members], "ndefs": len(o["defs"]), "data_slice": ds}})
+                     sample=samp({"stacked_lonlats": {"member_shapes": [[m["h"], m["w"]] for m in members], "ndefs": len(o["defs"]), "data_slice": ds}}))
             ctx.count("stacked_lonlats_" + ("full" if ds is None else "data_slice"))
             rep2 = dict(rep, oracle="stack_lonlats", data_slice=ds)
             keyname = "C10.stacked_lonlats.full" if ds is None else "C10.stacked_lonlats.data_slice"
@@ -570,7 +639,7 @@ def run(ctx):
     for c, o in zip(swc, obs["swath"]):
         n, m, keys = c["n"], c["m"], c["keys"]
         ctx.case(("sw", n, m, repr(keys), c["cls"]), nontrivial=len(keys) > 1 or len(sel(n, keys[0][0])) < n or len(sel(m, keys[0][1])) < m,
-                 sample={"swath_slice": {"shape": [n, m], "keys": keys, "class": c["cls"]}})
+                 sample=samp({"swath_slice": {"shape": [n, m], "keys": keys, "class": c["cls"]}}))
         ctx.count("swath_slice_" + c["cls"])
         rep = {"oracle": "swath", "case": c}
         if "error" in o:
@@ -596,7 +665,7 @@ def run(ctx):
     L = []
     for c, o in zip(swconc, obs["swath_concat"]):
         n1, n2, m, m2 = c["n1"], c["n2"], c["m"], c["m2"]
-        ctx.case(("swc", repr(c)), nontrivial=True, sample={"swath_concat": {"shapes": [[n1, m], [n2, m2]], "class": c["cls"], "key": c["key"]}})
+        ctx.case(("swc", repr(c)), nontrivial=True, sample=samp({"swath_concat": {"shapes": [[n1, m], [n2, m2]], "class": c["cls"], "key": c["key"]}}))
         ctx.count("swath_concat_" + c["cls"])
         rep = {"oracle": "swath_concat", "case": c}
         if "error" in o:
@@ -630,6 +699,95 @@ def run(ctx):
             if not (sp["lons_eq"] and sp["lats_eq"] and sp["eq"] and sp["shape"] == [n1, m]):
                 ctx.add_failure("C10.swath.split", "swath (%d,%d) split at row %s and concatenated: %s" % (n1, m, c["k"], sp), rep)
     texts.append(("c10_swath_concat", HDR + "Definition cases := [%s].\nEval vm_compute in (bad chk_swath_concat cases).\n" % ";\n".join(L), L, "swath_concat"))
+
+
+    # ================================================================ other code paths of get_lonlats
+    def tiles_ok(chunks, shape):
+        return len(chunks) == len(shape) and all(all(v >= 0 for v in c) and sum(c) == n for c, n in zip(chunks, shape))
+
+    def np_ds(arr, ds):
+        arr = np.asarray(arr, dtype=float)
+        if ds is None:
+            return arr
+        if len(ds) == 1:
+            return arr[slice(ds[0][0], ds[0][1])]
+        return arr[slice(ds[0][0], ds[0][1]), slice(ds[1][0], ds[1][1])]
+
+    def same_ll(got, full, ds, tol=1e-9):
+        return "error" not in got and close_grid(got["lons"], np_ds(full["lons"], ds), tol) and close_grid(got["lats"], np_ds(full["lats"], ds), tol)
+
+    L_dask, L_memo = [], []
+    for c, o in zip(apaths, obs["area_paths"]):
+        area = c["area"]
+        h, w = area["h"], area["w"]
+        rep = {"oracle": "area_paths", "case": c}
+        if "error" in o:
+            ctx.add_failure("C10.lonlats.error", "get_lonlats paths of %s raise %s" % (area, o["error"]), rep)
+            continue
+        for ch, e in zip(c["chunks"], o["dask"]):
+            ctx.case(("dask", repr(area), repr(ch)), nontrivial=True, sample=samp({"dask_chunks": {"shape": [h, w], "chunks": ch, "dask_chunks_seen": e.get("chunks")}}))
+            ctx.count("area_dask_chunks")
+            ok = "error" not in e and tiles_ok(e["chunks"], [h, w]) and tiles_ok(e["ll_chunks"], [h, w]) \
+                and e["x"] == o["proj"]["x"] and e["y"] == o["proj"]["y"] and same_ll(e, o["full"], None) \
+                and same_ll(e["slice"], o["full"], c["dask_slice"])
+            if not ok:
+                ctx.add_failure("C10.lonlats.dask", "area %s %s with chunks=%s: the dask path differs from the numpy path (%s)"
+                                % ((h, w), area["ext"], ch, e.get("error", e.get("chunks"))), rep)
+                continue
+            L_dask.append("(%s, %s, %s, %s, %s)" % (fobs(o["obs"], area["crs"]), "[%s]" % "; ".join("(%d)" % v for v in e["chunks"][0]),
+                                                    "[%s]" % "; ".join("(%d)" % v for v in e["chunks"][1]),
+                                                    "[" + "; ".join(flist(row) for row in e["x"]) + "]", "[" + "; ".join(flist(row) for row in e["y"]) + "]"))
+        ctx.case(("hist", repr(area), repr(c["history"])), nontrivial=any(f for _, f in c["history"]),
+                 sample=samp({"cache_history": {"shape": [h, w], "calls(data_slice, cache)": c["history"], "memo_set_after": [x.get("memo_set") for x in o["hist"]]}}))
+        ctx.count("area_cache_history")
+        bad = [i for i, ((ds, flag), e) in enumerate(zip(c["history"], o["hist"])) if not same_ll(e, o["full"], ds)]
+        if bad:
+            ctx.add_failure("C10.lonlats.cache_history", "area %s: call %d of the history %s does not return lonlats()[data_slice]" % ((h, w), bad[0], c["history"]), rep)
+        else:
+            L_memo.append("(%s, [%s])" % (fobs(o["obs"], area["crs"]), "; ".join(
+                "(%s, %s, %s)" % ("None" if ds is None else "(Some %s)" % key_lit(ds if len(ds) == 2 else [ds[0], [None, None]]),
+                                  "true" if flag else "false", "true" if e["memo_set"] else "false")
+                for (ds, flag), e in zip(c["history"], o["hist"]))))
+        for ds, e in zip(c["plain"], o["plain"]):
+            ctx.count("area_plain_slice")
+            if not same_ll(e, o["full"], ds):
+                ctx.add_failure("C10.lonlats.plain_slice", "area %s: get_lonlats(data_slice=slice%s) is not lonlats()[rows]" % ((h, w), tuple(ds[0])), rep)
+        if "nprocs" in o:
+            ctx.count("area_nprocs2")
+            if "error" in o["nprocs"]:
+                ctx.notes.append("nprocs=2 could not run here: " + o["nprocs"]["error"])
+            elif not same_ll(o["nprocs"], o["full"], None):
+                ctx.add_failure("C10.lonlats.nprocs", "area %s: get_lonlats(nprocs=2) differs from nprocs=1" % ((h, w),), rep)
+    for c, o in zip(spaths, obs["stack_paths"]):
+        rep = {"oracle": "stack_paths", "case": c}
+        if "error" in o:
+            ctx.add_failure("C10.stacked_lonlats.error", "stack paths of %s raise %s" % (c["members"], o["error"]), rep)
+            continue
+        total, w = sum(o["heights"]), o["width"]
+        for ch, e in zip(c["chunks"], o["dask"]):
+            ctx.case(("sdask", repr(c["members"]), repr(ch)), nontrivial=o["ndefs"] >= 2,
+                     sample=samp({"stacked_dask": {"member_heights": o["heights"], "width": w, "chunks": ch, "dask_chunks_seen": e.get("chunks")}}))
+            ctx.count("stacked_dask_chunks")
+            if not ("error" not in e and tiles_ok(e["chunks"], [total, w]) and same_ll(e, o["full"], None)):
+                ctx.add_failure("C10.stacked_lonlats.dask", "stack with member heights %s, chunks=%s: the dask path differs from the numpy path (%s)"
+                                % (o["heights"], ch, e.get("error", e.get("chunks"))), rep)
+        ctx.case(("shist", repr(c["members"]), repr(c["history"])), nontrivial=True,
+                 sample=samp({"stacked_cache_history": {"member_heights": o["heights"], "ops": c["history"]}}))
+        ctx.count("stacked_cache_history")
+        for i, (op, e) in enumerate(zip(c["history"], o["hist"])):
+            if op[0] == "stack":
+                ok = same_ll(e, o["full"], op[1]) and e.get("attr_is_result")
+            else:
+                ok = same_ll(e, o["def_full"][op[1]], op[2])
+            if not ok:
+                ctx.add_failure("C10.stacked_lonlats.cache_history", "stack with member heights %s: operation %d of the history %s returns something else "
+                                "than on a fresh object" % (o["heights"], i, c["history"]), rep)
+                break
+    for j in range(0, len(L_dask), 300):
+        texts.append(("c10_dask_%03d" % (j // 300), HDR + "Definition cases := [%s].\nEval vm_compute in (bad chk_dask cases).\n"
+                      % ";\n".join(L_dask[j:j + 300]), L_dask[j:j + 300], "dask_blocks"))
+    if L_memo:
+        texts.append(("c10_memo", HDR + "Definition cases := [%s].\nEval vm_compute in (bad chk_memo cases).\n" % ";\n".join(L_memo), L_memo, "cache_memo"))
 
     # ================================================================ evaluate the model inside Coq
     texts = [t for t in texts if t[2]]
@@ -675,6 +833,8 @@ def replay(ctx, data):
         sub.check({"swath": [case["case"]]}, None, "swath", case["case"])
     elif kind == "swath_concat":
         sub.check({"swath_concat": [case["case"]]}, None, "swath_concat", case["case"])
+    elif kind in ("area_paths", "stack_paths"):
+        sub.check({}, None, kind, case["case"])
     return bool(sub.ctx.failures)
 
 
@@ -685,8 +845,8 @@ class Replayer:
         self.ctx = ctx
 
     def check(self, payload, gen, which, single=None):
-        global gen_getitem, gen_stack, gen_split, gen_concat, gen_swath
-        saved = (gen_getitem, gen_stack, gen_split, gen_concat, gen_swath)
+        global gen_getitem, gen_stack, gen_split, gen_concat, gen_swath, gen_paths
+        saved = (gen_getitem, gen_stack, gen_split, gen_concat, gen_swath, gen_paths)
         try:
             gen_getitem = (lambda ctx: gen()) if which == "getitem" else (lambda ctx: ([], []))
             gen_stack = (lambda ctx: [single]) if which == "stack" else (lambda ctx: [])
@@ -694,6 +854,8 @@ class Replayer:
             gen_concat = (lambda ctx: [single]) if which == "concat" else (lambda ctx: [])
             gen_swath = (lambda ctx: ([single], [])) if which == "swath" else \
                 ((lambda ctx: ([], [single])) if which == "swath_concat" else (lambda ctx: ([], [])))
+            gen_paths = (lambda ctx: ([single], [])) if which == "area_paths" else \
+                ((lambda ctx: ([], [single])) if which == "stack_paths" else (lambda ctx: ([], [])))
             run(self.ctx)
         finally:
-            gen_getitem, gen_stack, gen_split, gen_concat, gen_swath = saved
+            gen_getitem, gen_stack, gen_split, gen_concat, gen_swath, gen_paths = saved
